@@ -77,6 +77,7 @@ type Runner struct {
 	Rolled      bool  // a rollback succeeded since the stored journal was written
 	LastDiff    []int // diff of the last Update event
 	NoWaitIndex bool  // do not wait for the initial indexing run after a reopen
+	LastInited  bool  // the index projection of the last event showed a completed initialisation
 	Extra       func(ev tl.M)
 }
 
